@@ -223,8 +223,15 @@ func RunProgram(w *world.World, policy string, size int, prog []Op, dur time.Dur
 			}
 		case 'A':
 			if dur > 1000000*time.Hour {
-				// "never expires": a long time passes and nothing may expire
-				time.Sleep(100000 * time.Hour)
+				// "never expires": a long time passes and nothing may expire. Many programs share one bubble: its clock
+				// must stay far away from the end of the representable range (a sleep whose wake-up time overflows
+				// crashes the Go runtime inside a bubble: "bad g->status in ready"), so the steps shrink once the
+				// bubble's clock has passed the year 2100.
+				if time.Now().Year() < 2100 {
+					time.Sleep(100000 * time.Hour)
+				} else {
+					time.Sleep(time.Hour)
+				}
 			} else {
 				time.Sleep(dur + time.Second)
 			}
